@@ -180,3 +180,16 @@ MUTANTS["C10"] = [
     ("block_if-empty-token-still-blocks", "annet/generators/base.py", "            condition = (None not in tokens and \"\" not in tokens)", "            condition = (None not in tokens)"),
     ("exclusive-flag-dropped", "annet/gen.py", "                exclusive=not ctx.args.no_acl_exclusive,\n                with_annotations=ctx.add_annotations,\n            )\n            if ctx.args.acl_safe:", "                exclusive=False,\n                with_annotations=ctx.add_annotations,\n            )\n            if ctx.args.acl_safe:"),
 ]
+
+MUTANTS["C14"] = [
+    ("arista-acl-line-removed", "annet/rpl_generators/community.py", "        ip extcommunity-list\n        ip large-community-list\n", "        ip extcommunity-list\n"),
+    ("huawei-prefix-acl-no-ipv6", "annet/rpl_generators/prefix_lists.py", "        ip ip-prefix\n        ip ipv6-prefix\n", "        ip ip-prefix\n"),
+    ("name-mangling-one-side", "annet/rpl_generators/policy.py", '                    device, "community", [mangle_united_community_list_name(condition.value)],', '                    device, "community", [mangle_united_community_list_name(list(reversed(condition.value)))],'),
+    ("orlonger-name-one-side", "annet/rpl_generators/prefix_lists.py", "                        yield from self._huawei_prefix_list(\"ip-prefix\", plist)\n                        processed_names.add(plist.name)", "                        yield from self._huawei_prefix_list(\"ip-prefix\", plist)\n                        processed_names.add(name)"),
+    ("arista-dedupe-by-orig-name", "annet/rpl_generators/prefix_lists.py", "                        yield from self._arista_prefix_list(\"ip\", plist)\n                        processed_names.add(plist.name)", "                        yield from self._arista_prefix_list(\"ip\", plist)\n                        processed_names.add(name)"),
+    ("raise-moved-below-yield", "annet/rpl_generators/policy.py", "        if action.value.expand:\n            raise RuntimeError(\"as_path.expand is not supported for huawei\")\n        if action.value.expand_last_as:\n            raise RuntimeError(\"as_path.expand_last_as is not supported for huawei\")\n        if action.value.set is not None:", "        if action.value.set is not None:", [("annet/rpl_generators/policy.py", "        if action.value.delete:\n            for path_item in action.value.delete:\n                yield \"apply as-path\", path_item, \"delete\"\n", "        if action.value.delete:\n            for path_item in action.value.delete:\n                yield \"apply as-path\", path_item, \"delete\"\n        if action.value.expand:\n            raise RuntimeError(\"as_path.expand is not supported for huawei\")\n")]),
+    ("huawei-next_hop-no-return", "annet/rpl_generators/policy.py", "                raise RuntimeError(f\"Next_hop target {next_hop_action_value.target} is not supported for huawei\")\n            return\n", "                raise RuntimeError(f\"Next_hop target {next_hop_action_value.target} is not supported for huawei\")\n"),
+    ("arista-continue-outside-block", "annet/rpl_generators/policy.py", "            for action in statement.then:\n                yield from self._arista_then(communities, device, action)\n            if statement.result is ResultType.NEXT:\n                yield \"continue\"", "            for action in statement.then:\n                yield from self._arista_then(communities, device, action)\n        if statement.result is ResultType.NEXT:\n            yield \"continue\""),
+    ("cumulus-united-list-only-first", "annet/rpl_generators/cumulus_frr.py", "        if condition.operator is ConditionOperator.HAS_ANY:\n            return [mangle_united_community_list_name(condition.value)]", "        if condition.operator is ConditionOperator.HAS_ANY:\n            return [mangle_united_community_list_name(condition.value[:1])] if len(condition.value) > 2 else [mangle_united_community_list_name(condition.value)]"),
+    ("rd-filter-by-name", "annet/rpl_generators/policy.py", '            yield "if-match rd-filter", str(rd_filter.number)', '            yield "if-match rd-filter", str(rd_filter.name)'),
+]
